@@ -48,12 +48,20 @@ type pool struct {
 	ws       []*worker
 	restarts int
 	mu       sync.Mutex
+	shm      string
 }
 
 func newPool(e *hx.Env, n int) *pool {
 	p := &pool{e: e}
+	// the workers rewrite and reopen small files thousands of times, and the journal open path
+	// fsyncs: a memory-backed directory (when there is one) makes that ~10x faster; fall back to
+	// the scratch directory otherwise.  Removed in close().
+	root := e.Scratch
+	if d, err := os.MkdirTemp("/dev/shm", "verif-corrupt-"); err == nil {
+		root, p.shm = d, d
+	}
 	for i := 0; i < n; i++ {
-		p.ws = append(p.ws, &worker{dir: fmt.Sprintf("%s/w%d", e.Scratch, i)})
+		p.ws = append(p.ws, &worker{dir: fmt.Sprintf("%s/w%d", root, i)})
 	}
 	return p
 }
@@ -206,7 +214,9 @@ func (p *pool) runAll(jobs []*job) {
 	wg.Wait()
 	// a timeout under a loaded machine is not a hang: re-run those cases alone with a long limit
 	for _, j := range jobs {
-		if j.died == "timeout" {
+		if j.died == "timeout" || j.died == "crash:unknown" {
+			// (a worker that vanished without a panic / fatal trace -- e.g. killed from outside -- is
+			// re-run as well: only a reproducible death is an outcome)
 			p.ws[0].run(p, j, hangRecheck)
 		}
 	}
@@ -218,5 +228,8 @@ const hangRecheck = 40 * time.Second
 func (p *pool) close() {
 	for _, w := range p.ws {
 		w.stop()
+	}
+	if p.shm != "" {
+		os.RemoveAll(p.shm)
 	}
 }
